@@ -7,10 +7,6 @@
 //verif:assume CCF decoder robustness: the real ccf.Decode (incl. github.com/fxamacker/cbor's well-formedness check and stream decoder run from source) on every byte string of the stated length - unconstrained, after the head of a type-and-value message, after a simple-type header, and as the value of each scalar simple type - never panics (Decode re-panics Go run-time errors and internal errors, so none occurs); longer inputs, type definitions and composite values are outside
 package PKGNAME
 
-import (
-	"github.com/onflow/cadence"
-	"github.com/onflow/cadence/common"
-)
 
 func zzDecodeNoCrash(in []byte) {
 	out := zzCatch(func() any {
@@ -37,22 +33,6 @@ func zzSimpleTypeHeader(id SimpleType) []byte {
 		return append(h, byte(id))
 	}
 	return append(h, 0x18, byte(id))
-}
-
-// zzCorrupt: the valid encoding of v with the byte at position i replaced by an arbitrary byte.
-func zzCorrupt(v cadence.Value, i int) {
-	b, err := Encode(v)
-	zzAssert("encode-ok", err == nil)
-	if err != nil || i >= len(b) {
-		return
-	}
-	msg := append([]byte{}, b...)
-	msg[i] = zzNondetByte()
-	zzDecodeNoCrash(msg)
-}
-
-func zzSampleFields() []cadence.Field {
-	return []cadence.Field{cadence.NewField("a", cadence.UInt8Type), cadence.NewField("bb", cadence.UInt16Type)}
 }
 
 //verif:harness property=C42 mode=bv unwind=80 lens=0..3 thorough_lens=0..3 steps=40000000
@@ -237,20 +217,3 @@ func ZZ_C42_DecodeScalarValue2_Path() {
 func ZZ_C42_DecodeScalarValue2_Void() {
 	zzDecodeNoCrash(zzCat(zzSimpleTypeHeader(SimpleTypeVoid), zzNondetBytes(2)))
 }
-
-// Thorough tier: every single-byte corruption of two valid messages (an event type value, a dictionary): the byte at position LEN gets an arbitrary value (one harness
-// per position, so they run in parallel; positions past the end of the message are empty runs).
-//
-//verif:harness property=C42 mode=bv unwind=200 tier=thorough lens=0..41 thorough_lens=0..41 steps=80000000
-func ZZ_C42_DecodeCorruptedEventTypeValue_LLEN() {
-	zzCorrupt(cadence.NewTypeValue(cadence.NewEventType(common.StringLocation("x"), "E", zzSampleFields(), []cadence.Parameter{{Label: "l", Identifier: "a", Type: cadence.UInt8Type}})), LEN)
-}
-
-//verif:harness property=C42 mode=bv unwind=200 tier=thorough lens=0..18 thorough_lens=0..18 steps=80000000
-func ZZ_C42_DecodeCorruptedDictionary_LLEN() {
-	zzCorrupt(cadence.NewDictionary([]cadence.KeyValuePair{
-		{Key: cadence.UInt16(1), Value: cadence.UInt8(2)},
-		{Key: cadence.UInt16(300), Value: cadence.UInt8(4)},
-	}).WithType(cadence.NewDictionaryType(cadence.UInt16Type, cadence.UInt8Type)), LEN)
-}
-
